@@ -389,23 +389,41 @@ def check_stop(ctx, prog):
                 return None
             ev = bounded.Bound(prog, s, {sync: 1} if sync is not None else {}, {}, bind=bind)
             # from every polling sleep - and from the entry of stop() - can the exit be reached without sleeping (again)?
+            def lvar(x):
+                x = strip(x)
+                while x.get('k') in ('paren', 'cast'):
+                    x = strip(x['e'])
+                return x.get('id') if x.get('k') == 'var' else None
             for start in list(sleeps) + [scfg.entry]:
                 seen = set()
-                work = [m for m, _ in start.succ]
+                # local flags (`busy = _running || _numClients > 0;`) are followed: the state of the walk carries their values
+                work = [(m, frozenset()) for m, _ in start.succ]
                 while work:
-                    n = work.pop()
+                    n, envf = work.pop()
                     if n is scfg.exit:
                         return True
-                    if n.id in seen or n in sleeps:
+                    if (n.id, envf) in seen or n in sleeps:
                         continue
-                    seen.add(n.id)
+                    seen.add((n.id, envf))
+                    env = dict(envf)
                     want = None
-                    if n.kind == 'br':
-                        want = ev.ev3(n.e)
+                    if n.kind == 'decl' and isinstance(n.info, dict) and n.info.get('id') is not None and n.info.get('init') is not None:
+                        v_ = ev.ev3(n.info['init'])
+                        env[n.info['id']] = None if v_ is None else bool(v_)
+                    elif n.kind == 'ev' and n.e is not None and n.e.get('k') == 'bin' and n.e.get('op') == '=' and lvar(n.e['x']) is not None:
+                        v_ = ev.ev3(n.e['y'])
+                        env[lvar(n.e['x'])] = None if v_ is None else bool(v_)
+                    elif n.kind == 'br':
+                        vid = lvar(n.e)
+                        if vid is not None and env.get(vid) is not None:
+                            want = env[vid]
+                        else:
+                            want = ev.ev3(n.e)
+                    envf2 = frozenset((k_, v_) for k_, v_ in env.items() if v_ is not None)
                     for m, lab in n.succ:
                         if want is not None and lab is not None and lab != want:
                             continue
-                        work.append(m)
+                        work.append((m, envf2))
             return False
         res = dict(((r, c), can_return(r, c)) for r in (0, 1) for c in (0, 1, 3))
         ctx.evaluations += 6
@@ -537,6 +555,10 @@ def check_sigpipe(ctx, prog):
                     h = strip(h['e'])
                 if h.get('k') == 'mem' and h.get('f') == '_handle':
                     sites.append((f, e))
+                elif h.get('k') == 'var' and not f.get('clsp') and any(p_.get('id') == h.get('id') for p_ in f.get('params') or []) and any(
+                        w.get('k') == 'call' and w.get('fn') == f.get('q') and w.get('a') and any(x.get('k') == 'mem' and x.get('f') == '_handle' for x in walk_expr(w['a'][0]))
+                        for g in prog.functions if g.get('body') and g.get('clsp') and (g.get('file') or '').endswith('Socket.cpp') for w in fn_exprs(g)):
+                    sites.append((f, e))           # a helper of the unit that is handed the stream handle (sendSome(_handle, ...))
     n = 0
     for f, e in sites:
         n += 1
